@@ -266,3 +266,84 @@ Theorem c12_auto_codons :
   forall (F : FTable) strict T c s, render_impl strict T c s = render_impl_decl strict T c s [].
 Proof. exact @render_impl_auto. Qed.
 Print Assumptions c12_auto_codons.
+
+(* A BOUND VALUE CONTRIBUTES str(value), WHATEVER ITS TYPE.  At a plain variable {{x}}, an optional one {{?x}}
+   and a defaulted one {{x|d}} (d any default text that is not a filter name) the rendering is exactly
+   [str_value v] for EVERY value v of the model - str, int, bool, None, float, list, tuple and
+   [VObj s r j t n], an object of any other type given by what Python's protocols answer for it:
+   str(v) = s, repr(v) = r, json.dumps(v) = j or TypeError, bool(v) = t, len(v) = n or TypeError, five
+   INDEPENDENT things.  For such an object the text is s - not its character data, not r, not j: a member
+   of class Priority(str, Enum) renders "Priority.HIGH" (its data "high" is what len / json.dumps see), an
+   instance of a str subclass whose __str__ masks its payload renders the mask.  Both modes, any
+   registered templates, every admissible context; x is ANY identifier. *)
+Theorem c12_bound_value_rendered_as_its_str :
+  forall (F : FTable), ftable_ok F = true ->
+  forall strict T c x d v l,
+    ctx_ok c = true ->
+    forallb (fun nt => well_formed (snd nt)) T = true ->
+    (strict = true -> Forall (fun nt => out_bound c (snd nt)) T) ->
+    word x = true -> nonempty d = true -> clean d = true -> is_filter d = false ->
+    lookup c x = Some v ->
+    In l [LVar x; LOpt x; LPipe x d] ->
+    exists w, render_impl strict (print_templates T) c (print [NLeaf l]) = Ok (str_value v) w.
+Proof. exact @value_text_proof. Qed.
+Print Assumptions c12_bound_value_rendered_as_its_str.
+
+(* ... and a loop item contributes str(item) at {{.}} and {{item}}: {{#each x}}{{item}}{{/each}} over a list or
+   tuple of items none of which is a dict (a dict may rebind "item" itself) renders the concatenation of
+   [str_item]: for [IOpaque s r j] - a float, a tuple, an Enum member, an instance of a str / int subclass
+   with a __str__ of its own - that is s, whatever r and j are. *)
+Theorem c12_loop_item_rendered_as_its_str :
+  forall (F : FTable), ftable_ok F = true ->
+  forall strict T c ws x items l,
+    ctx_ok c = true ->
+    forallb (fun nt => well_formed (snd nt)) T = true ->
+    (strict = true -> Forall (fun nt => out_bound c (snd nt)) T) ->
+    spaces ws = true -> word x = true ->
+    lookup_seq c x = Some items ->
+    forallb (fun it => negb (is_dict it)) items = true ->
+    In l [LDot; LVar K_ITEM] ->
+    exists w, render_impl strict (print_templates T) c (print [NEach ws x [l]]) = Ok (flat_map str_item items) w.
+Proof. exact @item_text_proof. Qed.
+Print Assumptions c12_loop_item_rendered_as_its_str.
+
+(* EVERY IDENTIFIER CAN BE BOUND, ON EVERY ENTRY POINT.  The bindings are the keyword arguments of the call
+   (Python's **context).  For every identifier x - strict, template, sequence, self, context, name, silent,
+   filters ... : no exception - bound to any value v, each of the operations that take keyword bindings
+   renders the variable as str(v): synthesize("{{x}}", x=v), translate(mRNA("{{x}}"), x=v), translate(n, x=v)
+   for a registered n, and - the context being forwarded to the nested translate - synthesize("{{>n}}", x=v) /
+   translate(mRNA("{{>n}}"), x=v); the same for {{?x}} and {{x|d}}.  No keyword is taken by the call itself,
+   none is refused.  (Before e868ad8 the first parameters of translate / synthesize were positional-or-keyword:
+   Examples.c12_binding_refused_legacy_refuted.) *)
+Theorem c12_every_identifier_binds :
+  forall (F : FTable), ftable_ok F = true ->
+  forall strict T c x d v l n o,
+    ctx_ok c = true ->
+    forallb (fun nt => well_formed (snd nt)) T = true ->
+    (strict = true -> Forall (fun nt => out_bound c (snd nt)) T) ->
+    word x = true -> nonempty d = true -> clean d = true -> is_filter d = false ->
+    lookup c x = Some v ->
+    In l [LVar x; LOpt x; LPipe x d] ->
+    word n = true -> lookup T n = Some [NLeaf l] ->
+    In o [Model.OpSynth [NLeaf l] c; Model.OpRender [NLeaf l] c; Model.OpTranslate n c;
+          Model.OpSynth [NLeaf (LInc n)] c; Model.OpRender [NLeaf (LInc n)] c] ->
+    result_text (Model.result_on strict T o) = Some (str_value v).
+Proof. exact @every_identifier_binds_proof. Qed.
+Print Assumptions c12_every_identifier_binds.
+
+(* ... also for an mRNA with hand-written codons (in strict mode as soon as the up-front check passes, as in
+   c12_strict_any_codons) *)
+Theorem c12_every_identifier_binds_any_codons :
+  forall (F : FTable), ftable_ok F = true ->
+  forall strict T c x d v l cs,
+    ctx_ok c = true ->
+    forallb (fun nt => well_formed (snd nt)) T = true ->
+    (strict = true -> Forall (fun nt => out_bound c (snd nt)) T) ->
+    (strict = true -> forall y, In y (required_of cs (print [NLeaf l])) ->
+                      occurs (key_pattern y) (outside_loops (print [NLeaf l])) = true -> lookup c y <> None) ->
+    word x = true -> nonempty d = true -> clean d = true -> is_filter d = false ->
+    lookup c x = Some v ->
+    In l [LVar x; LOpt x; LPipe x d] ->
+    result_text (Model.result_on strict T (Model.OpRenderDecl [NLeaf l] cs c)) = Some (str_value v).
+Proof. exact @every_identifier_binds_decl_proof. Qed.
+Print Assumptions c12_every_identifier_binds_any_codons.
